@@ -730,3 +730,11 @@ MUTATIONS += [
     # an unreadable cache entry makes the cached read_full fail although the backend has the file
     dict(id="C19-cache-error-fails-read-full", prop="C19", file=CA13, old="            match self.cache.read_full(tpe, id) {\n                Ok(Some(data)) => return Ok(data),\n                Ok(None) => {}\n                Err(err) => warn!(\n                    \"Error in cache backend reading {tpe:?},{id}: {}\",\n                    err.display_log()\n                ),\n            }", new="            match self.cache.read_full(tpe, id) {\n                Ok(Some(data)) => return Ok(data),\n                Ok(None) => {}\n                Err(err) => return Err(err),\n            }"),
 ]
+
+KC13 = "crates/core/src/commands/key.rs"
+MUTATIONS += [
+    # a password added to an open repository wraps a NEW key instead of the repository's master key
+    dict(id="C04-add-key-wraps-fresh-key", prop="C04", file=KC13, old="    let key = repo.dbe().key();\n    add_key_to_repo(repo, opts, pass, *key)", new="    let _key = repo.dbe().key();\n    add_key_to_repo(repo, opts, pass, Key::new())"),
+    # the key file is stored under the id of the master key bytes' hash... of something else than its content
+    dict(id="C04-key-file-id-not-its-hash", prop="C04", file=KC13, old="    let id = KeyId::from(hash(&data));\n\n    repo.be", new="    let id = KeyId::default();\n\n    repo.be"),
+]
